@@ -684,3 +684,20 @@ mut('c17-punctuation-iteration-order', 'C17 C12', 'tokens.py',
     """PUNCTUATION_COMMANDS = {command + bracket
                         for command in SIZE_PREFIX
                         for bracket in BRACKETS_DELIMITERS.union({'|', '.', '||', '.)'})}""")
+
+# ---- C06: the right diagnostic class for the fault (round 8 oracle) --------
+mut('c06-item-in-math-raises-typeerror', 'C06', 'reader.py',
+    """            assert mode != MODE_MATH, r'Command \\item invalid in math mode.'""",
+    """            if mode == MODE_MATH:
+                raise TypeError(r'Command \\item invalid in math mode.')""")
+mut('c06-unclosed-group-raises-eoferror', 'C06', 'reader.py',
+    """        raise TypeError(
+            '[Line: %d, Offset %d] Malformed argument. First and last elements '""",
+    """        raise EOFError(
+            '[Line: %d, Offset %d] Malformed argument. First and last elements '""")
+mut('c06-nameless-begin-is-plain-command', 'C06', 'reader.py',
+    """            assert args, 'Begin command must be followed by an env name.'
+            expr = TexNamedEnv(""",
+    """            if not args:
+                return TexCmd(name, position=c.position)
+            expr = TexNamedEnv(""")
